@@ -12,9 +12,38 @@ import random
 from . import core, syntax, progs, lexgen
 
 
+def needed_cats(fill):
+    out = set()
+    for x in fill.values():
+        if not isinstance(x, dict):
+            continue
+        f = x.get("f")
+        if f in ("ch", "ls"):
+            out.add(x["cat"])
+        elif f == "nd":
+            out |= needed_cats(x["fill"])
+        elif f == "sq":
+            for it in x["items"]:
+                out |= needed_cats({"_": it})
+    return out
+
+
 def exprset(table):
-    ops = [v["id"] for v in table["variants"] if "expr" in v["cats"] and v["lvl"] < 30]
-    return ops + ["ExprVariable", "ScalarLnumber", "Name", "NamePart", "StmtExpression"]
+    """operator variants + a few atoms, closed under 'every category a variant mentions is inhabited'"""
+    ids = {v["id"] for v in table["variants"] if "expr" in v["cats"] and v["lvl"] < 30}
+    ids |= {"ExprVariable", "ScalarLnumber", "Name", "NamePart", "StmtExpression"}
+    byid = {v["id"]: v for v in table["variants"]}
+    changed = True
+    while changed:
+        changed = False
+        cats = set()
+        for i in ids:
+            cats |= set(byid[i]["cats"])
+        for i in sorted(ids):
+            if not needed_cats(byid[i]["fill"]) <= cats:
+                ids.discard(i)
+                changed = True
+    return sorted(ids)
 
 
 def classify(check, results, table):
@@ -64,6 +93,7 @@ def run(tier):
     table, behs = syntax.generate(check, "7", num=n, seed=core.seed() + 7, depth=3)
     only7 = {v["id"] for v in table["variants"] if v["fam"] == "7"}
     ex = progs.expand_all(table, behs, core.seed(), ["none"])
+    behs, ex = progs.drop_skipped(behs, ex)
     tasks = []
     for b, e in zip(behs, ex):
         if only7 & set(e["used"]):
